@@ -728,7 +728,9 @@ func (r *resultBuilder) parseMsg(msg []byte, isUDP bool) (dnsmessage.Header, err
 	case dnsmessage.RCodeFormatError, dnsmessage.RCodeServerFailure,
 		dnsmessage.RCodeNotImplemented, dnsmessage.RCodeRefused:
 		// RFC 9520 resolution failure caching.
-		r.expiresAt = now.Add(rcodeFailureCachingDuration)
+		if ttl := now.Add(rcodeFailureCachingDuration); r.expiresAt.IsZero() || r.expiresAt.After(ttl) {
+			r.expiresAt = ttl
+		}
 	default:
 		return dnsmessage.Header{}, fmt.Errorf("unknown RCode: %d", header.RCode)
 	}
